@@ -65,6 +65,35 @@ Proof.
   rewrite <- sumf_scale_l. rewrite (Hv t Ht). ring.
 Qed.
 
+Notation mldivide := (mldivide K M nrm2 mulM ltM zeroM scale_of_max).
+Notation minverse := (minverse K M nrm2 mulM ltM zeroM scale_of_max).
+
+(* The three solvers return the determinant accumulated by lu. *)
+Lemma solvers_return_lu_d a b n m :
+  snd (mldivide a b n m) = lu_d (lu a n) /\ snd (mrdivide b a m n) = lu_d (lu a n) /\
+  snd (minverse a n) = lu_d (lu a n).
+Proof. repeat split. Qed.
+
+(* lu_solves, every n: if every pivot met is nonzero then  A (A \ B) = B,  (B / A) A = B,
+   A A^-1 = I  (entrywise on the index range), and the returned determinant is the signed
+   product of the pivots ((-1)^(number of row exchanges) * prod U_jj). *)
+Theorem lu_solves n (a : mat) : wf n n a -> pivots_nonzero a n ->
+  (forall m (b : mat), wf n m b -> forall i k, i < n -> k < m ->
+      mg (mmul K n n m a (fst (mldivide a b n m))) i k = mg b i k) /\
+  (forall m (b : mat), wf m n b -> forall i k, i < m -> k < n ->
+      mg (mmul K m n n (fst (mrdivide b a m n)) a) i k = mg b i k) /\
+  (forall i k, i < n -> k < n ->
+      mg (mmul K n n n a (fst (minverse a n))) i k = (if Nat.eqb i k then 1 else 0)) /\
+  lu_d (lu a n) = pm1 K (swap_count K M nrm2 mulM ltM zeroM scale_of_max a n n)
+                  * prodf K n (fun j => mg (lu_a (lu a n)) j j).
+Proof.
+  intros Hw Hp. split; [|split; [|split]].
+  - intros m b Hb. exact (lu_solves_mldivide K M nrm2 mulM ltM zeroM scale_of_max n m a b Hw Hb Hp).
+  - intros m b Hb. exact (lu_solves_mrdivide K M nrm2 mulM ltM zeroM scale_of_max n m a b Hw Hb Hp).
+  - exact (lu_solves_minverse K M nrm2 mulM ltM zeroM scale_of_max n a Hw Hp).
+  - exact (lu_det_pivots K M nrm2 mulM ltM zeroM scale_of_max a n Hw).
+Qed.
+
 Lemma prodf_zero n (f : nat -> K) j : j < n -> f j = 0 -> prodf K n f = 0.
 Proof.
   induction n; intros Hj Hz; [lia|]. simpl.
